@@ -38,7 +38,7 @@ Record InvAt (p : pc) (s : st) : Prop := {
   i_kfresh : Forall (fun q => 0 < q < next_pid s) (kpids (kids s));
   i_reexec : 0 <= reexec s < next_pid s;
   i_fm : forking_master p = true -> reexec s = 0;
-  i_track : serving p = true -> forall c, In c (kids s) -> is_running c = true ->
+  i_track : serving p = true -> forall c, In c (kids s) ->
             if c_master c then reexec s = c_pid c \/ In (c_pid c) (pending_master p)
             else In (c_pid c) (pids (workers s) ++ pending_reg p);
   i_nonneg : 0 <= num s /\ 0 <= cfgw s /\ 0 <= disk_w s /\ 0 <= timeout s /\ 0 <= disk_t s /\ 0 <= nap s;
@@ -59,7 +59,7 @@ Lemma invat_same : forall p p' s, InvAt p s ->
   (serving p' = true -> serving p = true) -> Forall after_ok (pc_after p') -> InvAt p' s.
 Proof.
   intros p p' s H E1 E2 E3 E4 E5 E6 E7. destruct H. constructor; auto; rewrite ?E1, ?E2, ?E3, ?E4; auto.
-  intros Hs c Hc Hr. specialize (i_track0 (E6 Hs) c Hc Hr). auto.
+  intros Hs c Hc. specialize (i_track0 (E6 Hs) c Hc). auto.
 Qed.
 
 Lemma incr_app_l : forall l1 l2, incr (l1 ++ l2) -> incr (l1 ++ []).
@@ -92,7 +92,7 @@ Proof.
 Qed.
 
 Lemma invat_remove : forall p s q, InvAt p s ->
-  (serving p = true -> forall c, In c (kids s) -> is_running c = true -> c_pid c <> q) ->
+  (serving p = true -> forall c, In c (kids s) -> c_pid c <> q) ->
   InvAt p (set_workers s (remove_wk q (workers s))).
 Proof.
   intros p s q H Hq. destruct H. constructor; simpl; auto.
@@ -104,7 +104,7 @@ Proof.
     intros x Hx. apply in_pids_remove in Hx. tauto.
   - eapply Forall_sub; [|exact i_fresh0]. intros x Hx. apply in_app_iff in Hx. apply in_app_iff.
     destruct Hx; auto. left. apply in_pids_remove in H. tauto.
-  - intros Hs c Hc Hr. specialize (i_track0 Hs c Hc Hr). destruct (c_master c); auto.
+  - intros Hs c Hc. specialize (i_track0 Hs c Hc). destruct (c_master c); auto.
     apply in_app_iff in i_track0. apply in_app_iff. destruct i_track0; auto. left.
     apply in_pids_remove. split; auto; try (eapply Hq; eauto).
   - eapply Forall_sub; [|eauto]. intros x Hx. apply in_app_iff in Hx. apply in_app_iff.
@@ -112,13 +112,12 @@ Proof.
 Qed.
 
 Lemma invat_kids : forall p s k, InvAt p s -> kpids k = kpids (kids s) ->
-  (forall c', In c' k -> exists c, In c (kids s) /\ c_pid c = c_pid c' /\ c_master c = c_master c' /\
-                                   (is_running c' = true -> is_running c = true)) ->
+  (forall c', In c' k -> exists c, In c (kids s) /\ c_pid c = c_pid c' /\ c_master c = c_master c') ->
   InvAt p (set_kids s k).
 Proof.
   intros p s k H E Hk. destruct H. constructor; simpl; auto; try (rewrite E; auto).
-  intros Hs c' Hc' Hr. destruct (Hk c' Hc') as [c [H1 [H2 [H3 H4]]]].
-  specialize (i_track0 Hs c H1 (H4 Hr)). rewrite <- H2, <- H3. auto.
+  intros Hs c' Hc'. destruct (Hk c' Hc') as [c [H1 [H2 H3]]].
+  specialize (i_track0 Hs c H1). rewrite <- H2, <- H3. auto.
 Qed.
 
 Lemma invat_set_sent : forall p s x, InvAt p s -> InvAt p (set_sent s x).
@@ -131,7 +130,7 @@ Proof.
     { apply invat_kids; auto. eapply kill_in_pids; eauto.
       intros c' Hc'. destruct (kill_in_child _ _ _ _ _ _ K Hc') as [c [H1 [H2 [H3 [H4 H5]]]]]. exists c. auto. }
     destruct d; auto. apply invat_set_sent. auto.
-  - apply invat_remove; auto. intros _ c Hc _ E. apply kill_in_none in K. apply K. subst q. apply in_map. auto.
+  - apply invat_remove; auto. intros _ c Hc E. apply kill_in_none in K. apply K. subst q. apply in_map. auto.
 Qed.
 
 Lemma invat_advance : forall p s dt, InvAt p s -> 0 <= dt -> InvAt p (advance s dt).
@@ -210,7 +209,7 @@ Proof.
   all: try solve [apply incr_snoc; auto; intros a Ha; rewrite Forall_forall in i_wage0; apply i_wage0 in Ha; lia].
   all: try solve [apply Forall_app; split; [eapply Forall_impl; [|eauto]; simpl; intros; lia | constructor; auto; lia]].
   all: try discriminate.
-  intros _ c Hc Hr. specialize (i_track0 E5 c Hc Hr). rewrite ?app_nil_r in i_track0. destruct (c_master c); auto.
+  intros _ c Hc. specialize (i_track0 E5 c Hc). rewrite ?app_nil_r in i_track0. destruct (c_master c); auto.
 Qed.
 
 Lemma inv_enter_stop : forall p s g a, InvAt p s -> after_ok a -> Inv (enter_stop s g a).
@@ -265,8 +264,8 @@ Proof.
   - unfold kpids. rewrite map_app. apply Forall_app. split. eapply Forall_impl; [|eauto]. simpl; intros; lia.
     constructor; auto. simpl. lia.
   - lia.
-  - intros _ c Hc Hr. apply in_app_iff in Hc. destruct Hc as [Hc|[<-|[]]].
-    + specialize (i_track0 eq_refl c Hc Hr). destruct (c_master c); auto. apply in_app_iff; auto.
+  - intros _ c Hc. apply in_app_iff in Hc. destruct Hc as [Hc|[<-|[]]].
+    + specialize (i_track0 eq_refl c Hc). destruct (c_master c); auto. apply in_app_iff; auto.
     + simpl. apply in_app_iff. right. left. auto.
 Qed.
 
@@ -296,8 +295,8 @@ Proof.
   - unfold kpids. rewrite map_app. apply Forall_app. split. eapply Forall_impl; [|eauto]. simpl; intros; lia.
     constructor; auto. simpl. lia.
   - lia.
-  - intros _ c Hc Hr. apply in_app_iff in Hc. destruct Hc as [Hc|[<-|[]]].
-    + specialize (i_track0 eq_refl c Hc Hr). destruct (c_master c); auto. destruct i_track0 as [?|[]]; auto.
+  - intros _ c Hc. apply in_app_iff in Hc. destruct Hc as [Hc|[<-|[]]].
+    + specialize (i_track0 eq_refl c Hc). destruct (c_master c); auto. destruct i_track0 as [?|[]]; auto.
     + simpl. auto.
 Qed.
 
@@ -309,7 +308,7 @@ Proof.
   - apply Forall_app in i_fresh0. destruct i_fresh0 as [_ Hq]. inversion Hq; subst. split; auto.
     lia. lia.
   - discriminate.
-  - intros _ c Hc Hr. specialize (i_track0 eq_refl c Hc Hr). destruct (c_master c); auto.
+  - intros _ c Hc. specialize (i_track0 eq_refl c Hc). destruct (c_master c); auto.
     destruct i_track0 as [E|[E|[]]]; auto. rewrite (i_fm0 eq_refl) in E.
     rewrite Forall_forall in i_kfresh0. assert (0 < c_pid c < next_pid s). apply i_kfresh0. apply in_map. auto. lia.
 Qed.
@@ -413,14 +412,14 @@ Proof.
   intros p s k H Hs Hi. destruct H. constructor; simpl; auto.
   - rewrite Forall_forall in *. intros x Hx. apply in_map_iff in Hx. destruct Hx as [c [<- Hc]].
     apply i_kfresh0. apply in_map. auto.
-  - intros Hv c Hc Hr. apply i_track0; auto.
+  - intros Hv c Hc. apply i_track0; auto.
 Qed.
 
 Lemma invat_clear_reexec : forall p s z, InvAt p s -> reexec s = z ->
   (forall c, In c (kids s) -> c_pid c <> z) -> InvAt p (set_reexec s 0).
 Proof.
   intros p s z H E Hz. destruct H. constructor; simpl; auto. lia.
-  intros Hs c Hc Hr. specialize (i_track0 Hs c Hc Hr). destruct (c_master c); auto.
+  intros Hs c Hc. specialize (i_track0 Hs c Hc). destruct (c_master c); auto.
   destruct i_track0 as [E2|?]; auto. exfalso. eapply Hz; eauto. congruence.
 Qed.
 
@@ -442,7 +441,7 @@ Proof.
       destruct (Z.shiftr (status_of z) 8 =? app_load_error).
       { inversion R; subst. unfold halt_code. auto. }
       apply IHf with (p := p) in R. simpl in R. auto.
-      apply (invat_remove p (set_kids s rest)); auto. simpl. intros _ c Hc _. apply Hsub. auto.
+      apply (invat_remove p (set_kids s rest)); auto. simpl. intros _ c Hc. apply Hsub. auto.
 Qed.
 
 Lemma inv_chld : forall s, Inv s -> Inv (chld s).
@@ -463,7 +462,6 @@ Lemma inv_exit : forall s q status, Inv s -> Inv (set_kids s (exit_child q statu
 Proof.
   intros. unfold Inv. simpl. apply invat_kids; auto. apply exit_child_pids.
   intros c' Hc'. destruct (exit_child_in _ _ _ _ Hc') as [c [H1 [H2 [H3 H4]]]]. exists c. repeat split; auto.
-  intros Hr. rewrite <- (H4 Hr). auto.
 Qed.
 
 Lemma inv_sig : forall s sg, Inv s -> Inv (step s (Sig sg)).
@@ -488,6 +486,42 @@ Proof.
   apply Forall_app in i_hb0. apply Forall_app. split; try tauto. constructor; auto. lia.
 Qed.
 
+Lemma invat_map_hb : forall p s f,
+  (forall w, w_pid (f w) = w_pid w /\ w_age (f w) = w_age w /\ (w_hb (f w) = w_hb w \/ w_hb (f w) = mono s)) ->
+  InvAt p s -> InvAt p (set_workers s (map f (workers s))).
+Proof.
+  intros p s f Hf H.
+  assert (E1 : map w_age (map f (workers s)) = map w_age (workers s)).
+  { rewrite map_map. apply map_ext. intros w. destruct (Hf w) as [_ [E _]]. auto. }
+  assert (E2 : pids (map f (workers s)) = pids (workers s)).
+  { unfold pids. rewrite map_map. apply map_ext. intros w. destruct (Hf w) as [E _]. auto. }
+  destruct H. constructor; simpl; rewrite ?E1, ?E2; auto.
+  apply Forall_app in i_hb0. apply Forall_app. destruct i_hb0 as [H1 H2]. split; auto.
+  rewrite Forall_forall in *. intros x Hx. rewrite map_map in Hx. apply in_map_iff in Hx. destruct Hx as [w [<- Hw]].
+  destruct (Hf w) as [_ [_ [E|E]]]; rewrite E; try lia. apply H1. apply in_map. auto.
+Qed.
+
+Lemma inv_notify_all : forall s, Inv s -> Inv (notify_all s).
+Proof.
+  intros s H.
+  pose (f := fun w : wk => if live_pid (kids s) (w_pid w) then mkWk (w_pid w) (w_age w) (w_aborted w) (mono s) else w).
+  assert (H1 : InvAt (cur s) (set_workers s (map f (workers s)))).
+  { apply invat_map_hb; auto. intros w. unfold f. destruct (live_pid (kids s) (w_pid w)); simpl; auto. }
+  unfold notify_all. fold f. cbn [cur set_workers kids mono].
+  destruct (cur s) eqn:PC; try (unfold Inv; cbn [cur set_workers]; rewrite PC; exact H1).
+  destruct (live_pid (kids s) p); try (unfold Inv; cbn [cur set_workers]; rewrite PC; exact H1).
+  unfold Inv. cbn [cur set_pc]. apply invat_set_pc. destruct H1. constructor; simpl in *; auto.
+  apply Forall_app in i_hb0. apply Forall_app. split; try tauto. constructor; auto. lia.
+Qed.
+
+Lemma inv_exit_told : forall s, Inv s -> Inv (exit_told s).
+Proof.
+  intros s H. unfold Inv, exit_told. cbn [cur set_kids]. apply invat_kids; auto.
+  - unfold kpids. rewrite map_map. apply map_ext. intros c. destruct (told c); auto.
+  - intros c' Hc'. apply in_map_iff in Hc'. destruct Hc' as [c [E Hc]]. exists c. split; auto.
+    destruct (told c); subst; simpl; repeat split; auto.
+Qed.
+
 Theorem inv_step : forall s l, Inv s -> Inv (step s l).
 Proof.
   intros s l H. destruct l.
@@ -500,6 +534,8 @@ Proof.
   - simpl. destruct ((0 <=? w) && (0 <=? t)) eqn:E; auto. apply andb_true_iff in E. destruct E as [E1 E2].
     unfold Inv. simpl. apply invat_set_disk; auto; apply Z.leb_le; auto.
   - unfold Inv. simpl. apply invat_set_orphan; auto.
+  - apply inv_exit_told; auto.
+  - apply inv_notify_all; auto.
 Qed.
 
 Theorem inv_run : forall ls s, Inv s -> Inv (run s ls).
